@@ -3,11 +3,13 @@ package main
 import (
 	"fmt"
 	"os"
-
-	"go.sia.tech/core/gateway"
 	"strings"
 	"sync"
 	"time"
+
+	"go.sia.tech/core/consensus"
+	"go.sia.tech/core/gateway"
+	"go.sia.tech/core/types"
 
 	"verif/internal/univ"
 )
@@ -16,7 +18,11 @@ import (
 // from 8, final cut 10): a trunk of trunkLen blocks and, for each (forkHeight, length), a side branch.
 // Returns the universe and named tips.
 func syncUniverse(name string, trunkLen int, branches [][2]int) (*univ.Universe, map[string]int) {
-	u := univ.NewUniverse(name, univ.RegimeS)
+	return syncUniverseIn(univ.RegimeS, name, trunkLen, branches)
+}
+
+func syncUniverseIn(reg univ.Regime, name string, trunkLen int, branches [][2]int) (*univ.Universe, map[string]int) {
+	u := univ.NewUniverse(name, reg)
 	tips := map[string]int{"G": 0}
 	trunk := []int{0}
 	k := 0
@@ -197,6 +203,120 @@ func runC12Switch(u *univ.Universe, tips map[string]int, start, first, second, m
 	}
 	if bans := v.ps.Bans(); len(bans) > 0 {
 		return "c12:honest-peer-banned", fmt.Sprintf("%s: the member banned the honest peer: %v", desc, bans)
+	}
+	return "", ""
+}
+
+// runC12SideOutline: a member on `start` is connected to an honest peer on `side` (same work, so the member
+// fetches and stores the peer's blocks as a side chain without adopting them). The peer then extends its chain
+// by one block and relays the block outline, as a syncer does for a block it mined. The outline extends a block
+// that is not the member's tip. The member must end on the peer's chain and must not ban the peer.
+func runC12SideOutline(u *univ.Universe, tips map[string]int, start, side, next string) (sig, what string) {
+	desc := fmt.Sprintf("[%s] member on %s, honest peer on %s extends it to %s and relays the outline", u.Regime, start, side, next)
+	c, err := newCluster(u, []memberSpec{{Tip: tips[start]}})
+	if err != nil {
+		return "harness:setup", err.Error()
+	}
+	defer func() {
+		if hung := c.close(); len(hung) > 0 && sig == "" {
+			sig, what = "c12:member-cannot-be-shut-down", desc+": "+hung[0]
+		}
+	}()
+	v := c.mem[0]
+	b := newByz(u, tips[side], nil)
+	defer b.close()
+	if err := b.dial(c.mn, "10.77.0.1", v.addr); err != nil {
+		return "harness:dial", err.Error()
+	}
+	// positive event: the member has fetched and stored the peer's tip
+	sideID := u.Nodes[tips[side]].Block.ID()
+	deadline := time.Now().Add(60 * time.Second)
+	for {
+		if _, ok := v.cm.Block(sideID); ok {
+			break
+		}
+		if time.Now().After(deadline) {
+			return "c12:side-chain-not-fetched", desc + ": the member did not fetch the peer's blocks within 60 s; requests seen: " + fmt.Sprint(b.requests())
+		}
+		time.Sleep(2 * time.Millisecond)
+	}
+	b.setChain(tips[next])
+	blk := u.Nodes[tips[next]].Block
+	if os.Getenv("VERIF_DEBUG") != "" {
+		pcs, _ := v.cm.State(blk.ParentID)
+		ol := gateway.OutlineBlock(blk, nil, nil)
+		fmt.Println("DBG outline id from member's parent state:", ol.ID(pcs), "true id:", blk.ID(), "parent on path:", u.Nodes[u.ByID[blk.ParentID]].Label, "member tip:", v.cm.Tip())
+	}
+	b.call(&gateway.RPCRelayV2BlockOutline{Block: gateway.OutlineBlock(blk, nil, nil)}, 10*time.Second)
+	converged := c.awaitTips(tips[next], convergeWait)
+	if os.Getenv("VERIF_DEBUG") != "" {
+		fmt.Println("DBG side-outline", desc, "converged:", converged, "bans:", v.ps.Bans(), "requests:", b.requests(), "target:", u.Nodes[tips[side]].L.State.PoWTarget())
+	}
+	if bans := v.ps.Bans(); len(bans) > 0 {
+		return "c12:honest-peer-banned:outline-on-side-block", fmt.Sprintf("%s: the member banned the honest peer: %v", desc, bans)
+	}
+	if !converged {
+		k := u.ByID[v.cm.Tip().ID]
+		return "c12:no-convergence:outline-on-side-block", fmt.Sprintf("%s: after %v the member is on %s (h%d); requests seen: %v", desc, convergeWait, u.Nodes[k].Label, v.cm.Tip().Height, b.requests())
+	}
+	if a := v.audit(); a != "" {
+		parts := strings.SplitN(a, "|", 2)
+		return parts[0], desc + ": " + parts[1]
+	}
+	return "", ""
+}
+
+// runC12HonestCheckpoints: an honest node that knows a side chain (submitted the way its syncer stores fetched
+// blocks) is asked for the checkpoint of every block it knows. Each answer must be one an honest requester
+// accepts - the block with its true parent state (commitment matches, block valid) - or a refusal; an answer
+// that fails the requester's validation gets the honest node banned by parallelSync.
+func runC12HonestCheckpoints(u *univ.Universe, tips map[string]int, best, side string) (sig, what string) {
+	desc := fmt.Sprintf("[%s] honest node on %s that also stores the side chain %s, asked for checkpoints", u.Regime, best, side)
+	c, err := newCluster(u, []memberSpec{{Tip: tips[best]}})
+	if err != nil {
+		return "harness:setup", err.Error()
+	}
+	defer func() {
+		if hung := c.close(); len(hung) > 0 && sig == "" {
+			sig, what = "c12:member-cannot-be-shut-down", desc+": "+hung[0]
+		}
+	}()
+	h := c.mem[0]
+	h.cm.AddBlocks(u.Blocks(u.PathTo(tips[side]))) // not heavier: stored, not applied
+	if h.cm.Tip().ID != u.Nodes[tips[best]].Block.ID() {
+		return "skip", ""
+	}
+	b := newByz(u, 0, nil)
+	defer b.close()
+	if err := b.dial(c.mn, "10.77.0.2", h.addr); err != nil {
+		return "harness:dial", err.Error()
+	}
+	for _, k := range append(u.PathTo(tips[best]), u.PathTo(tips[side])...) {
+		nd := u.Nodes[k]
+		if nd.Height < u.Net.HardforkV2.RequireHeight || nd.Block.V2 == nil {
+			continue
+		}
+		req := &gateway.RPCSendCheckpoint{Index: types.ChainIndex{Height: nd.Height, ID: nd.Block.ID()}}
+		if err := b.call(req, 10*time.Second); err != nil {
+			continue // refused
+		}
+		run.Add(1, 1, 1, 1)
+		st := req.State
+		st.Network = u.Net
+		bad := ""
+		switch {
+		case req.Block.ID() != nd.Block.ID() || len(req.Block.MinerPayouts) != 1 || req.Block.V2 == nil:
+			bad = "another block"
+		case req.Block.V2.Commitment != st.Commitment(req.Block.MinerPayouts[0].Address, req.Block.Transactions, req.Block.V2Transactions()):
+			bad = "a state that does not match the block's commitment"
+		default:
+			if err := consensus.ValidateBlock(st, req.Block, consensus.V1BlockSupplement{}); err != nil {
+				bad = "a state the block is not valid against: " + err.Error()
+			}
+		}
+		if bad != "" {
+			return "c12:honest-node-serves-invalid-checkpoint", fmt.Sprintf("%s: SendCheckpoint(%s, height %d) is answered with %s; an honest requester rejects this as an invalid checkpoint and bans the node", desc, nd.Label, nd.Height, bad)
+		}
 	}
 	return "", ""
 }
@@ -416,6 +536,42 @@ func c12() {
 		}()
 	}
 	wg.Wait()
+	// honest answers and relays that involve side chains (states the node never applied)
+	if f := os.Getenv("VERIF_C12_FILTER"); f == "" || strings.Contains("side", f) {
+		hu, ht := syncUniverseIn(univ.RegimeH, "H", 7, [][2]int{{5, 1}, {5, 2}, {5, 3}, {3, 3}, {3, 4}})
+		for h := 1; h < 7; h++ {
+			ht[fmt.Sprintf("T%d", h)] = hu.PathTo(ht["T7"])[h-1]
+		}
+		side := 0
+		// "<tip>-1": the parent of a branch tip
+		for _, name := range []string{"B@5+2", "B@5+3", "B@3+4"} {
+			p := hu.PathTo(ht[name])
+			ht[name+"-1"] = p[len(p)-2]
+		}
+		for _, sc := range [][3]string{{"T6", "B@5+2-1", "B@5+2"}, {"T7", "B@5+3-1", "B@5+3"}, {"T6", "B@3+4-1", "B@3+4"}} {
+			// the peer's first chain has the same height as the member's (not adopted), its next one is heavier
+			sig, what := runC12SideOutline(hu, ht, sc[0], sc[1], sc[2])
+			run.Add(2, 1, 1, 1)
+			run.Distinct("side-outline", sc)
+			side++
+			if sig != "" {
+				run.Violate(sig, what, map[string]any{"scenario": sc})
+			}
+		}
+		su := unis["S"]
+		for _, sc := range [][2]string{{"T16", "B@8+1"}, {"T16", "B@9+10"}, {"B@0+19", "T16"}, {"B@4+15", "T16"}, {"T16", "B@11+2"}, {"B@8+11", "T16"}} {
+			sig, what := runC12HonestCheckpoints(su.u, su.tips, sc[0], sc[1])
+			if sig == "skip" {
+				continue
+			}
+			run.Distinct("honest-checkpoints", sc)
+			side++
+			if sig != "" {
+				run.Violate(sig, what, map[string]any{"scenario": sc})
+			}
+		}
+		run.Extra["side_chain_scenarios"] = side
+	}
 	run.Extra["peer_reorg_during_sync_scenarios"] = len(swJobs)
 	run.Extra["configurations"] = len(cfgs)
 	run.Extra["skipped_no_unique_heaviest"] = skipped
